@@ -218,6 +218,48 @@ CLAIMED = {
    'not latency (generous timeouts, retried). Long single instructions are outside the statement.',
    'TLA+ cancellation machine model-checked by TLC incl. liveness; replay of every cancellation situation with exact instruction '
    'counts from the verif hook; TLC validation of recorded hook traces'),
+ 'C16': ('DESIGN.md section 3 / C16, 10.5',
+   'spec/Resolver.tla has a declarative layer (direct-use evidence, argument<->parameter edges, connected components; reject iff some '
+   'component holds both kinds of evidence), an algorithmic layer (the multi-pass inference of resolve.go/toposort.go as a state '
+   'machine whose ChooseOrder takes every order the topological walk plus Go map iteration can yield) and a run-time layer '
+   '(arrays by reference, scalars by value, fresh local arrays). TLC checks, for every program of bounded universes (2 functions x '
+   '1-2 parameters, every direct use, any call incl. recursion and fewer arguments than parameters; plus sampled 3-function '
+   'programs; 145k-6.9M states) and every body order, that the inference gives exactly the declarative verdict, types every use '
+   'consistently and stays within chain+2 passes. Every exported program (27k quick / 334k thorough) is rendered in all definition '
+   'orders x 3 renamings and parsed repeatedly by the real parser; the verdict is compared with the specification, accepted '
+   'programs are run and compared with the run-time model; 150-1,500 recorded resolutions of richer random programs (verdict, '
+   'types, indexes from DebugTypes, output) are validated by TLC.',
+   'Trusted: TLC, the transcription of resolve.go/toposort.go and of the declarative typing, the renderer. Bounds: <= 3 functions x '
+   '<= 2 parameters (<= 4 x <= 3 in traces), call depth 2; split/getline/native arguments as typing evidence are not covered; error '
+   'messages are not compared here (C19 does).',
+   'TLA+ declarative + algorithmic resolver model-checked by TLC over all traversal orders; replay in every definition order and '
+   'renaming; TLC validation of recorded resolutions'),
+ 'C17': ('DESIGN.md section 3 / C17, 10.5',
+   'spec/Native.tla holds the documented conversion rules (ToGo/FromGo over 15 kinds x 14 argument values, zero-fill, variadic '
+   'spread, result modes, 12 invalid shapes, 7 keyword-like names) and NativeMachine.tla the Parse -> Setup -> Call -> Convert -> '
+   'Return/Abort machine. TLC checks totality of the tables, the integer round trip, zero-fill, variadic spread, that the machine '
+   'equals Outcome and never sticks. 27k (quick) / 177k (thorough) exported (signature, arguments) cases run against Go functions '
+   'synthesised with reflect.FuncOf/MakeFunc that record what they receive; outcome class (set-up rejection, parse-time rejection, '
+   'run-time error, success), received values, printed result and the identity of the returned error are compared; everything '
+   'runs under recover(). 300-5,000 recorded runs over tables of 2-5 functions are validated by TLC.',
+   'Trusted: TLC, the documented-rule tables in Native.tla, the reflect harness. Out-of-range and NaN conversions are judged only '
+   'for "no panic"; rejections are compared by class, not message; nil or non-function Funcs entries are outside the statement.',
+   'TLA+ conversion tables and call machine model-checked by TLC; replay through reflect.MakeFunc recorders; TLC validation of recorded calls'),
+ 'C19': ('DESIGN.md section 3 / C19, 10.5',
+   '(a) On the algorithmic layer of Resolver.tla TLC proves that verdict, types and indexes do not depend on the path through '
+   'ChooseOrder and that message and position are deterministic under sorted iteration; 27k-87k sources (the C16 programs plus '
+   'programs with 2-3 independent type errors and native functions) are parsed 50 times each and compared on verdict, error text '
+   'and position, disassembly and a digest of the compiled tables. (b) SharedProgram.tla models N <= 3 interpreters over one shared '
+   'program with every step labelled by the locations it reads and writes; TLC checks Immutable, NoSharedWrite, NoForeignRead and '
+   'Equivalent over all interleavings (a shared-cache variant is refuted, so the properties are not vacuous). 18k-97k exported '
+   'interleavings are imposed on real interpreters one VM instruction at a time through the verif step hook and compared with the '
+   'solo result, with a reflection digest of the Program before and after; 52-612 recorded traces of 8 interpreters run '
+   'sequentially and then concurrently over one *parser.Program are validated by TLC; the thorough tier also builds the harness '
+   'with -race as a recording instrument.',
+   'Trusted: TLC, the digest walker, the step-hook scheduler. Interleavings finer than one VM instruction are seen only by the race '
+   'detector; races invisible to the result, the digest and the detector are not covered.',
+   'TLA+ resolver determinism + shared-program model checked by TLC; repeated-parse comparison; schedule replay through the verif '
+   'step hook; TLC trace validation; race detector as recording instrument'),
  'C06': ('DESIGN.md section 3 / C06',
    'TLC checks exhaustively (all operation histories up to depth 4-5 over a menu of ~60 operation instances) that the lazy '
    'record representation refines the abstract AWK record of spec/Record.tla; every history of <= 3 operations exported by '
